@@ -93,6 +93,8 @@ pub struct Digest<'a> {
     pub reg_chan: BTreeMap<usize, u32>,
     /// channel created inside an Iter call: it -> chan
     pub iter_chan: BTreeMap<usize, u32>,
+    /// thread spawned inside an AddSub (channeled) call: reg -> tid
+    pub reg_consumer: BTreeMap<usize, usize>,
     pub complete: bool,
 }
 
@@ -106,7 +108,7 @@ impl<'a> Digest<'a> {
         let mut open: BTreeMap<(usize, usize), usize> = BTreeMap::new();
         for (i, e) in ev.iter().enumerate() {
             match &e.k {
-                K::Spawn { tid, name } => {
+                K::Spawn { tid, name, .. } => {
                     if let Some(n) = name {
                         tid_name.insert(*tid, n.clone());
                     }
@@ -129,6 +131,8 @@ impl<'a> Digest<'a> {
         let mut iter_chan = BTreeMap::new();
         let mut regs = BTreeMap::new();
         let mut build_chans: BTreeMap<usize, Vec<(u32, Option<usize>)>> = BTreeMap::new();
+        let mut build_first_spawn: BTreeMap<usize, usize> = BTreeMap::new();
+        let mut reg_consumer = BTreeMap::new();
         for (ci, c) in calls.iter().enumerate() {
             let end = c.ret.unwrap_or(ev.len());
             let chans = || {
@@ -143,6 +147,12 @@ impl<'a> Digest<'a> {
                     if let Some((ch, _)) = chans().next() {
                         reg_chan.insert(*reg, ch);
                     }
+                    if let Some(t) = ev[c.inv..end].iter().find_map(|e| match &e.k {
+                        K::Spawn { tid, parent, name: Some(n) } if *parent == c.tid && n.ends_with("-channeled-subscriber") => Some(*tid),
+                        _ => None,
+                    }) {
+                        reg_consumer.insert(*reg, t);
+                    }
                 }
                 OpK::Iter { it, .. } => {
                     if let Some((ch, _)) = chans().next() {
@@ -151,6 +161,12 @@ impl<'a> Digest<'a> {
                 }
                 OpK::Build { store } => {
                     build_chans.insert(*store, chans().collect());
+                    if let Some(t) = ev[c.inv..end].iter().find_map(|e| match &e.k {
+                        K::Spawn { tid, parent, .. } if *parent == c.tid => Some(*tid),
+                        _ => None,
+                    }) {
+                        build_first_spawn.insert(*store, t);
+                    }
                 }
                 _ => {}
             }
@@ -167,10 +183,15 @@ impl<'a> Digest<'a> {
             regs,
             reg_chan,
             iter_chan,
+            reg_consumer,
             complete,
         };
         for s in 0..prog.stores.len() {
-            let sd = d.store_digest(s, build_chans.get(&s));
+            let mut sd = d.store_digest(s, build_chans.get(&s));
+            if sd.rtid.is_none() {
+                // no reducer-context callback was seen: the reducer loop is the pool's first task
+                sd.rtid = build_first_spawn.get(&s).cloned();
+            }
             d.stores.push(sd);
         }
         d
@@ -389,6 +410,17 @@ impl<'a> Digest<'a> {
             *st == s
                 && matches!(self.sub_kind(*sub), SubKind::Channeled { policy, .. } if *policy != Policy::Block)
         })
+    }
+
+    /// an upper bound for the end of a pipeline instance: the reducer's next take from the
+    /// dispatch queue (callbacks on other threads, e.g. channeled deliveries, are not in `last`)
+    pub fn inst_end_bound(&self, s: usize, inst: &Inst) -> usize {
+        let sd = &self.stores[s];
+        self.ev[inst.last..]
+            .iter()
+            .position(|e| matches!(&e.k, K::ChRecv { chan, .. } if Some(*chan) == sd.dchan) && Some(e.tid) == sd.rtid)
+            .map(|p| inst.last + p)
+            .unwrap_or(self.ev.len())
     }
 
     pub fn store_name(&self, s: usize) -> &str {
